@@ -133,7 +133,8 @@ def range_ctor_class(lo, hi, mlo, mhi):
   return 'accept'
 
 
-SPECIALS = [0.0, -0.0, INF, -INF, NAN, None, 10**30, -10**30, True, False, 5e-324]
+SPECIALS = [0.0, -0.0, INF, -INF, NAN, None, 10**30, -10**30, True, False, 5e-324,
+            10**400, -10**400]     # ints beyond the float range are ints all the same
 
 
 def probes_around(limits):
